@@ -294,6 +294,129 @@ def case_file(case):
     return finish_case(I, res) if I else res
 
 
+# ---- back-end half: every parsed item is defined exactly once by every back end -------------------------------
+import re as _re
+from vlib.extract import Skel, PUA_CLASS, struct_fields
+from vlib.mirsym.models_core import seq_eq
+
+_IDC = r"(?:[\w]|%s)" % PUA_CLASS
+BK_DEFINED = {
+    "typescript": r"^export (?:interface|type|enum|const) (%s+)" % _IDC,
+    "kotlin": r"^(?:@\w+(?:\([^)\n]*\))?\s)*(?:data class|enum class|sealed class|class|object|typealias|const val) (%s+)" % _IDC,
+    "swift": r"^public (?:struct|class|enum|indirect enum|typealias|let) (%s+)" % _IDC,
+    "scala": r"^\s*(?:case class|sealed trait|type|class|val) (%s+)" % _IDC,   # the companion `object X` of an enum is not a second definition
+    "go": r"^(?:type|const) (%s+)[ \[]" % _IDC,
+    "python": r"^(?:class (%s+)\(|(?=[A-Z])(%s+)(?:: \w+)? = )" % (_IDC, _IDC),
+}
+BK_ITEMS = ("struct", "alias", "unit_enum", "alg_enum", "const")
+BK_LETTER = {"struct": "S", "alias": "A", "unit_enum": "U", "alg_enum": "D", "const": "K"}
+BK_LANGS = ["typescript", "kotlin", "swift", "scala", "go", "python"]
+
+
+def case_backend(case):
+    lang, kinds = case
+    from vlib.mirsym.engine import new_interp
+    from vlib.mirsym.ir import IR
+    from vlib.mirsym import bharness
+    P = prog()
+    I = new_interp(P)
+    ir = IR(P.layout)
+    res = {"paths": 0, "violations": [], "case": [lang, list(kinds)], "src": ""}
+    syms = {k: z3.BitVec("n_" + k, 32) for k in kinds}
+
+    def entry(I):
+        for k, c in syms.items():
+            # constants are printed in SHOUTY / Pascal case by some back ends: `K<digit>` is a fixed point of those conversions
+            I.assume(z3.And(z3.UGE(c, 48), z3.ULE(c, 57)) if k == "const" else z3.And(z3.UGE(c, 97), z3.ULE(c, 122)))
+        u32 = ir.special("U32")
+        st, en, al, co = [], [], [], []
+        for k in kinds:
+            nm = RString([ord(BK_LETTER[k]), syms[k]])
+            if k == "struct":
+                st.append(ir.struct(nm, [ir.field("fa", u32), ir.field("fb", ir.special("String")), ir.field("fc", ir.special("Bool"))]))
+            elif k == "alias":
+                al.append(ir.alias(nm, ir.vec(u32)))
+            elif k == "unit_enum":
+                en.append(ir.enum_unit(nm, [ir.v_unit("Va"), ir.v_unit("Vb")]))
+            elif k == "alg_enum":
+                en.append(ir.enum_alg(nm, [ir.v_unit("Va"), ir.v_tuple("Vb", u32), ir.v_anon("Vc", [ir.field("x", u32)])], tag="t", content="c"))
+            else:
+                co.append(ir.const(nm, u32, 7))
+        pd = ir.parsed_data(structs=st, enums=en, aliases=al, consts=co)
+        ok, w, _ = bharness.generate(I, lang, pd)
+        return ok, w
+
+    for kind, out, pc in I.explore(entry, max_paths=200):
+        res["paths"] += 1
+        if kind == "panic":
+            continue   # a panic is C07's subject (Kotlin/Swift write_const: known finding there)
+        ok, w = out
+        if not ok:
+            continue   # reported as an error: allowed by the property
+        sk = Skel(w.chars)
+        spans = []
+        for m in _re.finditer(BK_DEFINED[lang], sk.text, _re.M):
+            g = m.lastindex
+            spans.append((m.start(g), m.end(g)))
+        for k in kinds:
+            want = [ord(BK_LETTER[k]), syms[k]]
+            if lang == "go" and k == "const":
+                want = [ord(BK_LETTER[k]), syms[k]]
+            n_valid = 0
+            for sp in spans:
+                e = seq_eq(I, sk.terms(sp), want)
+                if e is True or (e is not False and I.sat_model(z3.Not(e)) is None):
+                    n_valid += 1
+            if n_valid != 1:
+                m = I.sat_model(z3.BoolVal(True))
+                nm = BK_LETTER[k] + chr(m.eval(syms[k], model_completion=True).as_long())
+                res["violations"].append({"kind": "item-not-defined-once", "item": k, "name": nm, "count": n_valid})
+        if "struct" in kinds and lang != "swift":
+            # the struct lists its three fields in source order
+            want = [ord("S"), syms["struct"]]
+            for sp in spans:
+                e = seq_eq(I, sk.terms(sp), want)
+                if e is True or (e is not False and I.sat_model(z3.Not(e)) is None):
+                    fs = struct_fields(lang, sk, sk.str(sp))
+                    got = [sk.str(f.wire_key()) for f in (fs or [])]
+                    if got != ["fa", "fb", "fc"]:
+                        res["violations"].append({"kind": "struct-members", "item": "struct", "got": got})
+    uniq = {}
+    for v in res["violations"]:
+        uniq.setdefault((v["kind"], v["item"]), v)
+    res["violations"] = list(uniq.values())
+    return finish_case(I, res)
+
+
+BK_SRC = {"struct": "#[typeshare]\npub struct %s { pub fa: u32, pub fb: String, pub fc: bool }\n", "alias": "#[typeshare]\npub type %s = Vec<u32>;\n",
+          "unit_enum": "#[typeshare]\npub enum %s { Va, Vb }\n", "alg_enum": "#[typeshare]\n#[serde(tag = \"t\", content = \"c\")]\npub enum %s { Va, Vb(u32), Vc { x: u32 } }\n",
+          "const": "#[typeshare]\npub const %s: u32 = 7;\n"}
+
+
+def native_backend(nat, lang, kinds, v):
+    """the same items through the real parser + back end"""
+    names = {k: BK_LETTER[k] + ("5" if k == "const" else "q") for k in kinds}
+    names[v["item"]] = v["name"] if "name" in v else names[v["item"]]
+    src = "".join(BK_SRC[k] % names[k] for k in kinds)
+    r = nat.ask({"op": "generate", "lang": lang, "multi_file": False, "files": [{"source": src, "crate_name": "", "file_name": "", "file_path": "src/lib.rs"}],
+                 "config": {"go": {"package": "proto"}, "scala": {"package": "com.agilebits.onepassword"}}.get(lang, {})})
+    if "out" not in r:
+        return False, "real library reports %s" % (str(r)[:200],), src
+    text = r["out"].get("", "")
+    sk = Skel([ord(c) for c in text])
+    defined = [m.group(m.lastindex) for m in _re.finditer(BK_DEFINED[lang], sk.text, _re.M)]
+    if v["kind"] == "item-not-defined-once":
+        n = defined.count(names[v["item"]])
+        if n != 1:
+            return True, "--lang %s: the annotated %s `%s` is defined %d times in the output and no error is reported (definitions: %s)" % (lang, v["item"], names[v["item"]], n, defined), src
+        return False, "real output defines %s once" % names[v["item"]], src
+    fs = struct_fields(lang, sk, names["struct"])
+    got = [sk.str(f.wire_key()) for f in (fs or [])]
+    if got != ["fa", "fb", "fc"]:
+        return True, "--lang %s: struct %s lists fields %s, source has fa, fb, fc" % (lang, names["struct"], got), src
+    return False, "real output lists fa, fb, fc", src
+
+
 def native_lists(rep, src):
     r = rep.ask({"op": "parse", "source": src, "file_path": "src/lib.rs"})
     if "panic" in r or "crash" in r:
@@ -344,9 +467,11 @@ def run(rep, tier, only=None):
                   "markers": "marker word (4 chars) / attribute name (5 and 9 chars) symbolic on the middle member of struct, unit enum, data enum, struct variant",
                   "members": "3 members x %d marker arrangements (%s)" % (len(mk), "all triples" if tier == "thorough" else "all pairs + seed-rotated third"),
                   "files": "4 items of mixed kinds, every annotated subset, an optional failing item, module depth 0..2"}
-    rep.outside = ["the textual pre-filter `source.contains(\"#[typeshare\")` (text level; syn's lexer is not encoded)", "the generated text (back-end half)", "more than 3 members / 4 items"]
+    rep.outside = ["the textual pre-filter `source.contains(\"#[typeshare\")` (text level; syn's lexer is not encoded)", "members of enums in the generated text (C02 reads them); helper types a back end derives are not counted as invented", "more than 3 members / 4 items"]
     rep.assumptions = ["syn::visit's default traversal is a model (children in field order)", "source text -> AST by the real syn"]
-    groups = [("annotation", "case_annotation", ann_cases), ("marker-word", "case_marker_word", word_cases), ("members", "case_members", mem_cases), ("file", "case_file", file_cases)]
+    bk_cases = [(l, ks) for l in BK_LANGS for ks in (BK_ITEMS, ("struct", "const"), ("const",), ("alias", "unit_enum"), ("alg_enum", "struct"))]
+    rep.bounds["backend"] = "every back end on IRs holding one item of each kind (struct with 3 fields, alias, unit enum, data enum with unit/tuple/struct variants, const) with symbolic names: each item defined exactly once, struct fields in order"
+    groups = [("annotation", "case_annotation", ann_cases), ("marker-word", "case_marker_word", word_cases), ("members", "case_members", mem_cases), ("file", "case_file", file_cases), ("backend", "case_backend", bk_cases)]
     for gname, fn, cases in groups:
         if only and gname not in only:
             continue
@@ -360,6 +485,16 @@ def run(rep, tier, only=None):
             if not r["violations"]:
                 if gname in ("annotation", "marker-word") and len(rep.samples) < 8:
                     rep.sample({"harness": gname, "case": case, "paths": r["paths"], "verdict": "generated exactly when the symbolic word is the trigger word (unsat otherwise)"})
+                continue
+            if gname == "backend":
+                for v in r["violations"]:
+                    ok, why, src = native_backend(nat, case[0], case[1], v)
+                    rep.validated += 1
+                    sig = {"group": "backend", "kind": v["kind"], "lang": case[0], "item": v["item"]}
+                    if ok:
+                        rep.violation(sig, why, {"source": src, "kind": "backend", "lang": case[0], "kinds": list(case[1]), "v": v})
+                    else:
+                        rep.inconc("engine mismatch in backend %s: interpreter %s, real: %s" % (case, v, why))
                 continue
             v = r["violations"][0]
             src = r["src"]
@@ -401,6 +536,11 @@ def run(rep, tier, only=None):
 def replay(case):
     c = case["case"]
     rep = Replayer()
+    if c.get("kind") == "backend":
+        ok, why, _ = native_backend(rep, c["lang"], tuple(c["kinds"]), c["v"])
+        rep.close()
+        print(why)
+        return 1 if ok else 0
     real = native_lists(rep, c["source"])
     rep.close()
     print(real)
